@@ -37,6 +37,11 @@ type C13Scenario struct {
 	Sched  uint64     `json:"sched"`
 	Rich   bool       `json:"rich,omitempty"` // multipart messages with files
 	NoNoop bool       `json:"noNoop,omitempty"`
+	// Auth: SMTP auth type of the Client ("" = none); every connection authenticates.
+	Auth string `json:"auth,omitempty"`
+	// Refuse lists senders (indices) whose first recipient the server refuses with 550: their call
+	// must fail — and must not disturb anybody else's.
+	Refuse []int `json:"refuse,omitempty"`
 }
 
 type c13 struct{}
@@ -72,6 +77,14 @@ func (p *c13) Gen(seed uint64, i int, tier string) (any, bool) {
 	}
 	sc.Rich = r.Chance(1, 4)
 	sc.NoNoop = r.Chance(1, 5)
+	if r.Chance(1, 3) {
+		sc.Auth = sim.Pick(r, []string{"LOGIN-NOENC", "SCRAM-SHA-256", "CRAM-MD5", "PLAIN-NOENC", "AUTODISCOVER"})
+	}
+	if r.Chance(1, 3) {
+		for k := 0; k < 1+r.Intn(2); k++ {
+			sc.Refuse = append(sc.Refuse, r.Intn(sc.N))
+		}
+	}
 	return sc, true
 }
 
@@ -189,9 +202,19 @@ func (p *c13) Exec(t *testing.T, scAny any) Outcome {
 	hooked := false
 	res := RunSim(t, sc.Sched, sc.Policy, 400000, 0, func(k *sim.Kernel) (func(), func()) {
 		hooked = installLockHooks(k)
-		env = &c13Net{k: k, srv: refsmtpd.New(k, refsmtpd.Config{Caps: []string{"8BITMIME", "ENHANCEDSTATUSCODES"}}, TLSMat), pipes: make([]*sim.Pipe, sc.N+2)}
+		scfg := refsmtpd.Config{Caps: []string{"8BITMIME", "ENHANCEDSTATUSCODES"}}
+		ccfg := ClientCfg{TLSPolicy: "none", NoNoop: sc.NoNoop}
+		if sc.Auth != "" {
+			scfg.Caps = append(scfg.Caps, authCaps("PLAIN", "LOGIN", "CRAM-MD5", "SCRAM-SHA-1", "SCRAM-SHA-256"))
+			scfg.Auth = refsmtpd.AuthCfg{User: "user-c13", Pass: "pass-c13-Qz", Salt: []byte("c13salt"), Iter: 2}
+			ccfg.AuthType, ccfg.User, ccfg.Pass = sc.Auth, "user-c13", "pass-c13-Qz"
+		}
+		for _, i := range sc.Refuse {
+			scfg.Rules = append(scfg.Rules, refsmtpd.Rule{Verb: "RCPT", LineContains: fmt.Sprintf("<a-g%d@", i), Action: refsmtpd.Action{Code: 550, Text: "no such user"}})
+		}
+		env = &c13Net{k: k, srv: refsmtpd.New(k, scfg, TLSMat), pipes: make([]*sim.Pipe, sc.N+2)}
 		return func() {
-			c, err := BuildClient(ClientCfg{TLSPolicy: "none", NoNoop: sc.NoNoop}, env.Dial, nil)
+			c, err := BuildClient(ccfg, env.Dial, nil)
 			if err != nil {
 				dialErr = err
 				return
@@ -309,9 +332,28 @@ func (p *c13) Exec(t *testing.T, scAny any) Outcome {
 		tok := strings.TrimPrefix(cm.From.Local, "sender-")
 		commits[tok] = append(commits[tok], cm)
 	}
+	refused := map[int]bool{}
+	for _, i := range sc.Refuse {
+		refused[i] = true
+	}
 	for i, b := range built {
 		s := slots[i]
 		tok := b.Spec.Token
+		if refused[i] {
+			// this sender's recipient is refused: its call fails, nothing of it is committed
+			out.stat("fault.fired.refused_sender", 1)
+			if s.panic != nil {
+				out.violate("C13:panic", "sender %d panicked: %v", i, s.panic)
+			} else if !s.returned {
+				out.violate("C13:call-did-not-return:"+s.mode, "sender %d (%s, refused recipient) did not return", i, s.mode)
+			} else if s.err == nil || s.delivered {
+				out.violate("C13:refused-but-succeeded:"+s.mode, "the server refused a recipient of message %s, yet %s returned %v and IsDelivered()=%v", tok, s.mode, s.err, s.delivered)
+			}
+			if len(commits[tok]) > 0 {
+				out.violate("C13:refused-but-committed", "message %s had a refused recipient and must have been abandoned, yet it was committed", tok)
+			}
+			continue
+		}
 		if s.panic != nil {
 			out.violate("C13:panic", "sender %d panicked: %v", i, s.panic)
 			continue
@@ -361,8 +403,8 @@ func (p *c13) Exec(t *testing.T, scAny any) Outcome {
 			out.violate("C13:commit-outside-call", "message %s was committed at step %d, outside its call [%d,%d]", tok, cm.Step, s.startStep, s.endStep)
 		}
 	}
-	if len(h.Commits) != sc.N {
-		out.violate("C13:commit-count", "%d messages sent, %d commits", sc.N, len(h.Commits))
+	if want := sc.N - len(refused); len(h.Commits) != want {
+		out.violate("C13:commit-count", "%d messages to be delivered, %d commits", want, len(h.Commits))
 	}
 	out.Key = fmt.Sprintf("%x", res.SchedHash)
 	out.Nontrivial = true
@@ -379,12 +421,28 @@ func (p *c13) Shrink(scAny any) []any {
 		if n < sc.N {
 			c := *sc
 			c.N = n
+			c.Refuse = nil
+			for _, i := range sc.Refuse {
+				if i < n {
+					c.Refuse = append(c.Refuse, i)
+				}
+			}
 			out = append(out, &c)
 		}
 	}
 	if sc.Rich {
 		c := *sc
 		c.Rich = false
+		out = append(out, &c)
+	}
+	if sc.Auth != "" {
+		c := *sc
+		c.Auth = ""
+		out = append(out, &c)
+	}
+	if len(sc.Refuse) > 0 {
+		c := *sc
+		c.Refuse = nil
 		out = append(out, &c)
 	}
 	if sc.Mode == "mixed" {
@@ -404,7 +462,7 @@ func (p *c13) Shrink(scAny any) []any {
 
 func (p *c13) Info() PropInfo {
 	return PropInfo{
-		Rule: "seeded schedules: N in {2,3,4,8,16} (every 97th run: 64) goroutines with distinct messages (single-part, or multipart with an attachment written in 7-byte chunks) on one Client in mode {all Send on one dialled connection, all DialAndSend, alternating}; the kernel decides at every lock, unlock, read-lock, read-unlock and connection read/write which enabled task runs next, by policy {uniform random, PCT with 1..3 priority change points, starve-one}; server-side read segmentation drawn per read; every run is non-trivial; distinct = distinct hashes of the sequence of (task, yield point) decisions actually taken",
+		Rule: "seeded schedules: N in {2,3,4,8,16} (every 97th run: 64) goroutines with distinct messages, optionally with SMTP AUTH on every connection (LOGIN, SCRAM-SHA-256, CRAM-MD5, PLAIN, auto-discovery) and optionally with one or two senders whose recipient the server refuses (their call must fail without disturbing the others), (single-part, or multipart with an attachment written in 7-byte chunks) on one Client in mode {all Send on one dialled connection, all DialAndSend, alternating}; the kernel decides at every lock, unlock, read-lock, read-unlock and connection read/write which enabled task runs next, by policy {uniform random, PCT with 1..3 priority change points, starve-one}; server-side read segmentation drawn per read; every run is non-trivial; distinct = distinct hashes of the sequence of (task, yield point) decisions actually taken",
 		Assumptions: []string{"interleavings are explored at the instrumented yield points (lock operations of packages mail and smtp, simulated connection reads and writes); between two yield points a task runs alone, unsynchronised accesses there are the race detector's job (it sees every access under -race, and the kernel creates no happens-before edge between tasks)",
 			"the seeded crypto/rand reader has a mutex of its own (a small masking source for races between calls that both draw randomness)",
 			"latencies are a few nanoseconds of virtual time in this build (tasks park by polling), timeouts never fire"},
